@@ -95,6 +95,27 @@ def u_user_nodes(ip):
     c.oblige("var_rejected_as_log_lik_node", kind == "raise" and r.cls == "RuntimeError")
 
 
+@unit("C02.user_node_single", "C02", [f"{M}::GraphBuilder._add_model_log_prob_node", f"{M}::GraphBuilder._add_model_log_lik_node", f"{M}::GraphBuilder._add_model_log_prior_node"])
+def u_user_single(ip):
+    """when only ONE of the partial totals is replaced by a user node (every distribution flagged exactly once), that node is forwarded
+    unchanged and log_prob is still the sum over all distribution nodes (the user node does not leak into it)."""
+    c = ip.ctx
+    install_graph_models(ip)
+    for which in ("log_lik_node", "log_prior_node"):
+        g = G(ip)
+        roots = SHAPES["flat"](g)
+        gb = ip.call(g.GB, [], {})
+        ip.call(method(ip, gb, "add"), roots, {})
+        nodes, vars_ = ip.call(method(ip, gb, "_all_nodes_and_vars"), [], {})
+        by = {ip.getattr(v, "name"): v for v in vars_}
+        ip.setattr(gb, which, g.calc("user_total", by["b"], name="user_total"))
+        model = ip.call(method(ip, gb, "build_model"), [], {})
+        vals = {nm: z3.Const(f"val_{nm}", U) for nm in STRONG["flat"]}
+        exp = expected(ip, "flat", vals)
+        c.oblige(f"log_prob_still_joint_density.{which}", to_sort(ip.getattr(model, "log_prob"), Real) == sum(t for _, t in exp.values()))
+        c.oblige(f"user_node_forwarded.{which}", ip.to_U(ip.getattr(model, which.replace("_node", ""))) == ip.uf("user_total", vals["b"]))
+
+
 @unit("C02.selection", "C02", [f"{M}::GraphBuilder._add_model_log_lik_node", f"{M}::GraphBuilder._add_model_log_prior_node", f"{M}::GraphBuilder._add_model_log_prob_node",
                                f"{N}::Var.has_dist.fget", f"{N}::Var.dist_node.fget"])
 def u_selection(ip):
